@@ -164,7 +164,13 @@ impl<T> Array<T> {
         let data = data.into();
         let shape = shape.into();
 
-        if data.len() == shape.elements() {
+        // The number of elements of an absurdly large shape may overflow, in which case it cannot
+        // match the data in any case
+        let elements = shape
+            .iter()
+            .try_fold(1usize, |acc, &n| acc.checked_mul(n));
+
+        if elements == Some(data.len()) {
             Ok(Array::new_unchecked(data, shape))
         } else {
             Err(ShapeError {
